@@ -109,3 +109,35 @@ unquote_quote = Contract(
 )
 
 CONTRACTS = [unquote, code_quoted, quote, location_within, quote_idem, unquote_quote]
+
+# ------------------------------------------------------------------------------------------- paren_wrap_code / update_d (helpers of the default codec)
+paren_wrap_code = Contract(
+    "doctrans.pure_utils:paren_wrap_code",
+    properties=["C03", "C02"],
+    note="this interpreter is >= 3.9 (PY_GTE_3_9 is read from the real module)",
+    cases=[Case("nonempty", {"code": "str"}, assume=["len(code) > 0"]), Case("empty", {"code": ("lit", "")})],
+    ensures=[
+        Clause("PW1", "result == (code if (code[0] + code[-1]) in ('()', '[]', '{}') else '(' + code + ')')", when=["nonempty"],
+               note="an expression default is wrapped in exactly one pair of parentheses unless it is already bracketed"),
+        Clause("PW2", "result[1:-1] == code or result == code", when=["nonempty"], note="nothing but the outer pair is added"),
+    ],
+    raises={"IndexError": "code == ''"},
+    canaries=["result == code"],
+)
+
+update_d = Contract(
+    "doctrans.pure_utils:update_d",
+    properties=["C01"],
+    cases=[Case("arg", {"d": ("dict", {"typ": "str", "doc": "str"}), "arg": ("dict", {"doc": "str", "default": "int"})}),
+           Case("no-arg", {"d": ("dict", {"typ": "str"}), "arg": None}),
+           Case("empty-arg", {"d": ("dict", {"typ": "str"}), "arg": ("dict", {})})],
+    ensures=[
+        Clause("UD-same", "result is d", note="updates in place and hands the same dict back"),
+        Clause("UD-arg", "list(d.keys()) == ['typ', 'doc', 'default'] and d['typ'] == old_d['typ'] and d['doc'] == arg['doc'] and d['default'] == arg['default']", when=["arg"],
+               note="keys of arg win, other keys and the key order are kept"),
+        Clause("UD-noop", "unchanged(d, old_d)", when=["no-arg", "empty-arg"]),
+        Clause("UD-arg-frame", "arg is None or unchanged(arg, old_arg)", note="the source dict is not modified"),
+    ],
+    canaries=["len(d) == 1"],
+)
+CONTRACTS += [paren_wrap_code, update_d]
